@@ -1374,7 +1374,7 @@ func main() {
 
 	// ---- GC pressure on the pointer-carrying variants (child processes; decided there, reported as violations) ----
 	{
-		ngc := 1
+		ngc := 2 // x 3 variants, three children at a time, ~3 s each
 		if th {
 			ngc = 4
 		}
